@@ -4,8 +4,8 @@ import Dawn.Proofs.BuildSim
 # No spurious rebuilds (C02)
 
 `Settled`: a target a real build visited successfully is left with a record that (1) is not marked `rerun`, (2) lists,
-for every dependency, exactly the stamp that dependency shows, and (3) passes its own `upToDate` test against the
-files as they are. Every visit keeps this for the targets visited before it. A second build of the same tree from
+for every dependency, exactly the stamp that dependency shows, and nothing else (as many entries as dependencies),
+and (3) passes its own `upToDate` test against the files as they are. Every visit keeps this for the targets visited before it. A second build of the same tree from
 the state the first one left (fresh process, fresh load) therefore skips every one of them.
 -/
 namespace Dawn.Build
@@ -14,7 +14,8 @@ def Settled (P : Params) (t : Tree) (s : BSt) (x : Label) (m : Res) : Prop :=
   ∃ d, t.defs x = some d ∧
     (semRec (s.w.recs x)).rerun = false ∧ m.data = stampOf P (semRec (s.w.recs x)) ∧
     upToDate P s.w d (semRec (s.w.recs x)) = true ∧
-    ∀ y ∈ depsOf t x d, ∃ my, s.memo y = some my ∧ my.ok = true ∧ (semRec (s.w.recs x)).deps.lookup y = some my.data
+    (∀ y ∈ depsOf t x d, ∃ my, s.memo y = some my ∧ my.ok = true ∧ (semRec (s.w.recs x)).deps.lookup y = some my.data) ∧
+    (!P.depCount || (semRec (s.w.recs x)).deps.length == (depsOf t x d).length) = true
 
 def SInv (P : Params) (t : Tree) (s : BSt) : Prop := ∀ x m, s.memo x = some m → m.ok = true → Settled P t s x m
 
@@ -194,10 +195,10 @@ theorem settled_frame {P : Params} {S : Shape} {t : Tree} {o : Opts} {s : BSt} {
     (ord : Order t s l) (hl : (t.defs l).isSome) {x : Label} {m : Res} (hx : s.memo x = some m) (hok : m.ok = true)
     (h : Settled P t s x m) : Settled P t (visit P t o s l) x m := by
   have hxl : x ≠ l := by intro e; subst e; rw [ord.fresh] at hx; cases hx
-  obtain ⟨dx, hdx, h1, h2, h3, h4⟩ := h
+  obtain ⟨dx, hdx, h1, h2, h3, h4, h5⟩ := h
   obtain ⟨f1, f2⟩ := visit_frame hc P o s l
   obtain ⟨res, hmemo⟩ := visit_memo P t o s l
-  refine ⟨dx, hdx, ?_, ?_, ?_, ?_⟩
+  refine ⟨dx, hdx, ?_, ?_, ?_, ?_, ?_⟩
   · rw [f1 x hxl]; exact h1
   · rw [f1 x hxl]; exact h2
   · rw [f1 x hxl, upToDate_frame hc P hdx hxl hl (ord.above x m dx hx hok hdx) f2]; exact h3
@@ -205,6 +206,7 @@ theorem settled_frame {P : Params} {S : Shape} {t : Tree} {o : Opts} {s : BSt} {
     obtain ⟨my, a, b, c⟩ := h4 y hy
     refine ⟨my, ?_, b, by rw [f1 x hxl]; exact c⟩
     rw [hmemo]; exact memo_fresh_mono ord.fresh a
+  · rw [f1 x hxl]; exact h5
 
 theorem visit_settled {P : Params} {S : Shape} {t : Tree} {o : Opts} {s : BSt} {l : Label}
     (hc : Conforms S t) (hdry : o.dry = false) (si : SInv P t s) (ord : Order t s l) :
@@ -226,7 +228,8 @@ theorem visit_settled {P : Params} {S : Shape} {t : Tree} {o : Opts} {s : BSt} {
         rw [hmemo] at hx; simp at hx; subst hx
         have hsem : info = semRec (s.w.recs x) := by
           rw [hinfo]; exact loadedInfo_rerun_false (hinfo ▸ hrr)
-        refine ⟨d, hd, by rw [hw, ← hsem]; exact hrr, by rw [hw, ← hsem], by rw [hw, ← hsem]; exact hup, ?_⟩
+        refine ⟨d, hd, by rw [hw, ← hsem]; exact hrr, by rw [hw, ← hsem], by rw [hw, ← hsem]; exact hup, ?_,
+          by rw [hw, ← hsem]; exact plan_skip_length hp⟩
         intro y hy
         obtain ⟨my, a, b, _, c⟩ := hdeps y hy
         exact ⟨my, by rw [hmemo]; exact memo_fresh_mono ord.fresh a, b, by rw [hw, ← hsem]; exact c⟩
@@ -239,13 +242,15 @@ theorem visit_settled {P : Params} {S : Shape} {t : Tree} {o : Opts} {s : BSt} {
           refine ⟨my, by rw [hmemo]; exact memo_fresh_mono ord.fresh a, b, ?_⟩
           rw [hdd, lookup_map_self _ _ _ hy]
           simp [memoData, a]
+        have hlen : dd.length = (depsOf t x d).length := by rw [hdd, List.length_map]
         cases hk : d.kind with
         | src =>
           obtain ⟨he, hwa⟩ := applySteps_exec_src P t o s.w x d info dd hk
           rw [hwa] at hw
           rw [hmemo, he] at hx; simp at hx; subst hx
-          refine ⟨d, hd, ?_, ?_, ?_, ?_⟩ <;> rw [hw] <;> simp [semRec, upToDate, hk]
-          exact hdeps
+          refine ⟨d, hd, ?_, ?_, ?_, ?_, ?_⟩ <;> rw [hw] <;> simp [semRec, upToDate, hk]
+          · exact hdeps
+          · exact Or.inr hlen
         | fn =>
           cases hf : o.fails x with
           | true =>
@@ -255,7 +260,7 @@ theorem visit_settled {P : Params} {S : Shape} {t : Tree} {o : Opts} {s : BSt} {
             obtain ⟨he, hwa⟩ := applySteps_exec_fn_ok P t o s.w x d info dd hk hf
             rw [hwa] at hw
             rw [hmemo, he] at hx; simp at hx; subst hx
-            refine ⟨d, hd, ?_, ?_, ?_, ?_⟩
+            refine ⟨d, hd, ?_, ?_, ?_, ?_, ?_⟩
             · rw [hw]; simp [semRec]
             · rw [hw]; simp [semRec]
             · rw [hw]
@@ -269,14 +274,15 @@ theorem visit_settled {P : Params} {S : Shape} {t : Tree} {o : Opts} {s : BSt} {
               rw [writeAll_mem _ _ g _ hnd (mem_bodyWrites P t s.w x d g hg)]
               simp
             · rw [hw]; simpa [semRec] using hdeps
+            · rw [hw]; simp [semRec, hlen]
   · obtain ⟨res, hmemo⟩ := visit_memo P t o s l
     rw [hmemo, upd_other _ _ _ _ hxl] at hx
     cases hd : t.defs l with
     | none =>
       -- nothing changes but the memo
-      obtain ⟨dx, hdx, h1, h2, h3, h4⟩ := si x m hx hok
+      obtain ⟨dx, hdx, h1, h2, h3, h4, h5⟩ := si x m hx hok
       have hw : (visit P t o s l).w = s.w := by simp [visit, hd]
-      refine ⟨dx, hdx, by rw [hw]; exact h1, by rw [hw]; exact h2, by rw [hw]; exact h3, ?_⟩
+      refine ⟨dx, hdx, by rw [hw]; exact h1, by rw [hw]; exact h2, by rw [hw]; exact h3, ?_, by rw [hw]; exact h5⟩
       intro y hy
       obtain ⟨my, a, b, c⟩ := h4 y hy
       exact ⟨my, by rw [hmemo]; exact memo_fresh_mono ord.fresh a, b, by rw [hw]; exact c⟩
@@ -301,6 +307,7 @@ theorem plan_skip_of {P : Params} {t : Tree} {o : Opts} {s : BSt} {l : Label} {d
     (hal : o.always = false)
     (hdeps : ∀ y ∈ depsOf t l d, ∃ m, s.memo y = some m ∧ m.ok = true ∧ m.changed = false ∧
       (loadedInfo s.w l d).deps.lookup y = some m.data)
+    (hlen : (!P.depCount || (loadedInfo s.w l d).deps.length == (depsOf t l d).length) = true)
     (hup : upToDate P s.w d (loadedInfo s.w l d) = true) (hrr : (loadedInfo s.w l d).rerun = false) :
     plan P t o s l d = .skip (loadedInfo s.w l d) := by
   unfold plan
@@ -317,7 +324,7 @@ theorem plan_skip_of {P : Params} {t : Tree} {o : Opts} {s : BSt} {l : Label} {d
       exfalso
       apply hcond
       simp only [Bool.and_eq_true, Bool.not_eq_eq_eq_not, Bool.not_true]
-      refine ⟨⟨⟨hal, ?_⟩, hup⟩, hrr⟩
+      refine ⟨⟨⟨hal, ?_, hlen⟩, hup⟩, hrr⟩
       apply List.all_eq_true.mpr
       intro y hy
       obtain ⟨m, hm, _, hch, hl⟩ := hdeps y hy
@@ -349,7 +356,7 @@ theorem rebuild_quiet {P : Params} {t : Tree} {o2 : Opts} (hna : NoAlways t) (ha
   | cons x rest ih =>
     intro seen s hok hseen hdf q
     obtain ⟨mx, hmx, hmxok⟩ := hok x List.mem_cons_self
-    obtain ⟨d, hd, hrr, _, hup, hdeps⟩ := si x mx hmx hmxok
+    obtain ⟨d, hd, hrr, _, hup, hdeps, hlen⟩ := si x mx hmx hmxok
     have hinfo : loadedInfo s.w x d = semRec (s1.w.recs x) := by
       rw [loadedInfo_noAlways (hna x d hd)]; exact q.recs x
     have hplan : plan P t o2 s x d = .skip (semRec (s1.w.recs x)) := by
@@ -361,6 +368,7 @@ theorem rebuild_quiet {P : Params} {t : Tree} {o2 : Opts} (hna : NoAlways t) (ha
         obtain ⟨_, _, _, hdata, _, _⟩ := si y my hmy hmyok
         refine ⟨_, q.memo y hys, rfl, rfl, ?_⟩
         rw [hinfo, hl, hdata]
+      · rw [hinfo]; exact hlen
       · rw [hinfo, upToDate_congr P d _ q.files]; exact hup
       · rw [hinfo]; exact hrr
     have hv : visit P t o2 s x = { s with memo := upd s.memo x (some ⟨true, false, stampOf P (semRec (s1.w.recs x)), false⟩),
